@@ -160,6 +160,10 @@ def run_case(sh, s, d, case, script=None):
         made = [f for f in new if f.endswith(('.fs', '.fsz', '.deltafs', '.deltafsz'))]
         if not made:
             trace.append('backup%s:nothing-to-do' % ''.join(flags))
+            # "nothing to do" is only right when the committed part of the data file is what the newest backup holds
+            if backups and backups[-1]['S'] != S:
+                sh.violation('c18:backup-wrote-nothing-although-the-data-file-differs-from-the-newest-backup',
+                             {'flags': flags, 'sizes': (len(backups[-1]['S']), len(S)), 'trace': trace[-8:]}, case)
             return
         kindb = 'full' if made[0].endswith(('.fs', '.fsz')) else 'incr'
         if kindb == 'incr':
@@ -189,7 +193,41 @@ def run_case(sh, s, d, case, script=None):
         forced_flags = None
         if script is not None:
             k, forced_flags = script[i]
-        if k == 'commit' or not dr.spec.txns:
+        if script is None and dr.spec.txns and random.Random(s * 31 + i).random() < 0.12:
+            k = 'same-size'
+        if k == 'same-size':
+            # a pack that leaves the data file exactly as long as it was at the previous backup, with other content: pack away
+            # all garbage, commit X, back up, overwrite X by a state of the same length (same metadata), pack, back up again
+            from zv.props.c06 import adopt_spec
+
+            def raw_commit(oid, payload):
+                t = TransactionMetaData(b'', b'same size')
+                dr.st.tpc_begin(t)
+                try:
+                    serial = dr.st.getTid(oid)
+                except KeyError:
+                    serial = z64
+                dr.st.store(oid, serial, objs.cell_record(payload), '', t)
+                dr.st.tpc_vote(t)
+                dr.st.tpc_finish(t)
+            try:
+                dr.st.pack(TimeStamp(dr.st.lastTransaction()).timeTime() + 0.001, referencesf, gc=False)
+                packs_since_full[0] += 1
+            except Exception:
+                pass
+            xoid = dr.st.new_oid()
+            raw_commit(xoid, 'a' * 40)
+            backup([f for f in ('-F', '-Q', '-z') if rnd.random() < 0.3])
+            size1 = len(committed_prefix())
+            raw_commit(xoid, 'b' * 40)
+            dr.st.pack(TimeStamp(dr.st.lastTransaction()).timeTime() + 0.001, referencesf, gc=False)
+            packs_since_full[0] += 1
+            dr.spec = adopt_spec(dr.st)
+            if len(committed_prefix()) == size1:
+                sh.count('packs_leaving_the_file_as_long_as_at_the_previous_backup')
+            trace.append('same-size-rewrite-and-pack')
+            backup(['-Q'] + [f for f in ('-z', '-k') if rnd.random() < 0.3])
+        elif k == 'commit' or not dr.spec.txns:
             for _ in range(rnd.randrange(1, 4)):
                 dr.step(['store', 'store', 'multi', 'undo', 'delete'])
             trace.append('commits')
